@@ -195,6 +195,8 @@ def _j(c):
     key = "threshold" if c["mode"] == "thr" else "recurrence_rate"
     kw = {key: (c["p1n"] / c["p1d"], c["p2n"] / c["p2d"]), "metric": (c["mx"], c["my"]),
           "lag": c["lag"]}
+    if c.get("dx", 1) > 1 or c.get("dy", 1) > 1:
+        kw.update(dim=(c["dx"], c["dy"]), tau=(1, 1))
     out = {}
     for name, cls in (("jrp", JointRecurrencePlot), ("jrn", JointRecurrenceNetwork)):
         o = {"exc": "", "JR": [], "N": 0, "rr": 0, "adj": [],
